@@ -67,6 +67,17 @@ example : unaryOp .not 5 8 = 250 := by decide
 
 theorem compare_exact (c : Go.Cmp) (x y : Int) : compare c x y = exactCmp c x y := rfl
 
+/-- the Wa-only three-way comparison `x <=> y` folds to the sign of the exact difference
+(both the int64 case and the big case; in particular no wrap-around when `x - y` leaves int64) -/
+theorem spaceship_exact (x y : Int) :
+    spaceship x y = (if x < y then -1 else if x = y then 0 else 1) ∧ spaceship x y = sign (x - y) := by
+  unfold spaceship sign
+  constructor
+  · split <;> split <;> (try split) <;> (try split) <;> omega
+  · split <;> split <;> (try split) <;> (try split) <;> omega
+
+example : spaceship (-(2:Int)^63) 1 = -1 ∧ spaceship (2^200) 1 = 1 ∧ spaceship 7 7 = 0 := by decide
+
 /-! ## 2. conversions report exactness correctly -/
 
 /-- `ToInt` of an untyped quotient succeeds exactly when the quotient is integral, with that value -/
@@ -334,6 +345,16 @@ theorem fold_eq_runtime_cmp (t : Go.ITy) (ht : 0 < t.bits) (c : Go.Cmp) (x y : I
 
 example : inRange Go.u64 18446744073709551615 ∧ runCmp Go.u64 .lt 18446744073709551615 1 = false
     ∧ runCmp Go.i64 .lt (-1) 1 = true := by decide
+
+/-- `x <=> y` on variables equals the folded constant for representable operands -/
+theorem fold_eq_runtime_ship (t : Go.ITy) (ht : 0 < t.bits) (x y : Int)
+    (hx : inRange t x) (hy : inRange t y) : runShip t x y = spaceship x y := by
+  unfold runShip
+  rw [fold_eq_runtime_cmp t ht .eq x y hx hy, fold_eq_runtime_cmp t ht .lt x y hx hy, (spaceship_exact x y).1]
+  simp only [exactCmp, decide_eq_true_eq]
+  split <;> split <;> (try split) <;> omega
+
+example : runShip Go.i64 (-(2:Int)^63) 1 = -1 ∧ runShip Go.u64 (2^64 - 1) 1 = 1 := by decide
 
 theorem fold_eq_runtime_neg (t : Go.ITy) (x : Int) : Go.neg (enc t x) = enc t (exactUn .neg x 0) :=
   fold_eq_runtime_neg_lem t x
